@@ -6,6 +6,8 @@ import (
 	"fmt"
 	"math"
 	"math/big"
+	"os"
+	"strings"
 	"sync"
 
 	"pgregory.net/rapid"
@@ -18,13 +20,21 @@ import (
 var keyCache = map[string]ref.Key{}
 var keyCacheMu sync.Mutex
 
+// keySalt makes the keys of concurrently running check processes distinct
+// (it is a function of VERIF_SEED, the job and the shard, so a run stays a
+// pure function of its inputs). Without it every process would use the same
+// "gca" key, and a server in one process that forwards an authorization to a
+// port that happens to belong to a server of another process would be obeyed
+// there.
+var keySalt = os.Getenv("VERIF_SEED_EFFECTIVE") + "|" + os.Getenv("VERIF_SHARD") + "|" + os.Getenv("VERIF_REPO") + "|" + strings.Join(os.Args[1:3], " ") + "|"
+
 func keyFor(label string) ref.Key {
 	keyCacheMu.Lock()
 	defer keyCacheMu.Unlock()
 	if k, ok := keyCache[label]; ok {
 		return k
 	}
-	k := ref.KeyFromSeed([]byte(label))
+	k := ref.KeyFromSeed([]byte(keySalt + label))
 	keyCache[label] = k
 	return k
 }
